@@ -10,6 +10,44 @@ theorem cache_cell_ge (c : CaseM) : ∀ x : Nat, x ∈ (caseCfg c).cache → 10 
   show 10 ≤ 11 + 3 * o.genType ∧ (11 + 3 * o.genType) % 3 = 2
   omega
 
+/-- the value the configuration determines for a cell: a type cell of some operation, and then `genType + 1` -/
+theorem det_lookup_some (ops : List OpM) (x d : Nat)
+    (h : (ops.map (fun o => (typeCell o.genType, o.genType + 1))).lookup x = some d) :
+    ∃ t, x = typeCell t ∧ d = t + 1 := by
+  induction ops with
+  | nil => simp at h
+  | cons o os ih =>
+    simp only [List.map_cons, List.lookup_cons] at h
+    split at h
+    · rename_i heq
+      simp only [Option.some.injEq] at h
+      exact ⟨o.genType, by simpa using heq, h.symm⟩
+    · exact ih h
+
+theorem det_lookup_mem (ops : List OpM) (o : OpM) (ho : o ∈ ops) :
+    (ops.map (fun o => (typeCell o.genType, o.genType + 1))).lookup (typeCell o.genType) = some (o.genType + 1) := by
+  induction ops with
+  | nil => simp at ho
+  | cons p ps ih =>
+    simp only [List.map_cons, List.lookup_cons]
+    by_cases hp : typeCell o.genType == typeCell p.genType
+    · simp only [hp]
+      have : o.genType = p.genType := by
+        have h1 : (11 + 3 * o.genType : Nat) = 11 + 3 * p.genType := beq_iff_eq.mp hp
+        omega
+      rw [this]
+    · simp only [hp]
+      rcases List.mem_cons.mp ho with rfl | hm
+      · simp at hp
+      · exact ih hm
+
+theorem det_none_small (c : CaseM) (x : Nat) (h : x < 10) : (caseCfg c).det.lookup x = none := by
+  cases hl : (caseCfg c).det.lookup x with
+  | none => rfl
+  | some d =>
+    obtain ⟨t, rfl, _⟩ := det_lookup_some c.ops x d hl
+    simp only [typeCell] at h; omega
+
 theorem small_not_cache (c : CaseM) (x : Nat) (h : x < 10) : (caseCfg c).cache.contains x = false := by
   cases hc : (caseCfg c).cache.contains x with
   | false => rfl
@@ -50,14 +88,19 @@ theorem opActs_clean (c : CaseM) (tid : Nat) (o : OpM) (ho : o ∈ c.ops) :
     · simp only [List.mem_singleton] at ha; subst ha
       have h2 := small_not_mem c 2 (by omega)
       have : (caseCfg c).lazy.contains uniqCell = true := by simp [caseCfg]
-      simp only [cleanAct, this, Bool.true_and]
+      have hd : detOK (caseCfg c) uniqCell 7 = true := by
+        simp [detOK, det_none_small c uniqCell (by decide)]
+      simp only [cleanAct, this, hd, Bool.true_and, Bool.and_true]
       show (!(caseCfg c).cache.contains 2) = true
       simp [h2]
     · simp at ha
   · split at ha
     · simp only [List.mem_singleton] at ha; subst ha
-      simp only [cleanAct, List.contains_iff_mem, caseCfg, List.mem_map]
-      exact ⟨o, ho, rfl⟩
+      have hm : typeCell o.genType ∈ (caseCfg c).cache := by
+        simp only [caseCfg, List.mem_map]
+        exact ⟨o, ho, rfl⟩
+      have hl : (caseCfg c).det.lookup (typeCell o.genType) = some (o.genType + 1) := det_lookup_mem c.ops o ho
+      simp [cleanAct, hm, hl]
     · simp at ha
   · split at ha
     · simp only [List.mem_singleton] at ha; subst ha; exact rd 3 (by omega)
@@ -155,5 +198,14 @@ theorem sigma0_lazy (c : CaseM) : LazyInit (caseCfg c) sigma0 := by
   intro x hx
   simp only [caseCfg, List.mem_singleton] at hx
   subst hx; decide
+
+theorem sigma0_coherent (c : CaseM) : Coherent (caseCfg c) sigma0 := by
+  intro x d hd
+  obtain ⟨t, rfl, _⟩ := det_lookup_some c.ops x d hd
+  left
+  have h1 : typeCell t ≠ docCell := by show (11 + 3 * t : Nat) ≠ 0; omega
+  have h2 : typeCell t ≠ routerCell := by show (11 + 3 * t : Nat) ≠ 1; omega
+  have h3 : typeCell t ≠ uniqCell := by show (11 + 3 * t : Nat) ≠ 2; omega
+  simp [sigma0, h1, h2, h3]
 
 end KinModel.Conc
